@@ -41,6 +41,10 @@ type cerContent struct {
 	Acct    [][]int `json:"acct"`
 	VSA     [][]int `json:"vsa"`  // vendor(4 bytes) ++ type(0 acct,1 auth) ++ id(4 bytes)
 	SVID    [][]int `json:"svid"` // Supported-Vendor-Id values
+	OSID    [][]int `json:"osid"` // Origin-State-Id values (none unless configured)
+	FW      [][]int `json:"fw"`   // Firmware-Revision values (none unless configured)
+	Vendor  [][]int `json:"vendor"`
+	Product string  `json:"product"`
 }
 type hsObs struct {
 	NCer           int        `json:"ncer"`
@@ -84,7 +88,7 @@ func errClass(err error) string {
 }
 
 func parseCERContent(m *wireMsg) cerContent {
-	c := cerContent{HostIPs: [][]int{}, Auth: [][]int{}, Acct: [][]int{}, VSA: [][]int{}, SVID: [][]int{}}
+	c := cerContent{HostIPs: [][]int{}, Auth: [][]int{}, Acct: [][]int{}, VSA: [][]int{}, SVID: [][]int{}, OSID: [][]int{}, FW: [][]int{}, Vendor: [][]int{}}
 	for _, a := range m.AVPs {
 		switch a.Code {
 		case 264:
@@ -101,6 +105,14 @@ func parseCERContent(m *wireMsg) cerContent {
 			c.Acct = append(c.Acct, abs.Ints(a.Payload))
 		case 265:
 			c.SVID = append(c.SVID, abs.Ints(a.Payload))
+		case 278:
+			c.OSID = append(c.OSID, abs.Ints(a.Payload))
+		case 267:
+			c.FW = append(c.FW, abs.Ints(a.Payload))
+		case 266:
+			c.Vendor = append(c.Vendor, abs.Ints(a.Payload))
+		case 269:
+			c.Product = string(a.Payload)
 		case 260:
 			inner, _ := splitAVPs(a.Payload)
 			var vendor []int
@@ -174,10 +186,13 @@ func runHandshake(id int, sc *hsScript, configured bool) hsLine {
 	l := hsLine{Ev: "hs", ID: id, Script: *sc}
 	set := *cliSettings
 	want := cerContent{OH: string(set.OriginHost), OR: string(set.OriginRealm), HostIPs: [][]int{{1, 10, 0, 0, 1}},
-		Auth: [][]int{abs.B4(4)}, Acct: [][]int{abs.B4(3)}, VSA: [][]int{append(append(abs.B4(10415), 1), abs.B4(16777251)...)}, SVID: [][]int{abs.B4(10415)}}
+		Auth: [][]int{abs.B4(4)}, Acct: [][]int{abs.B4(3)}, VSA: [][]int{append(append(abs.B4(10415), 1), abs.B4(16777251)...)}, SVID: [][]int{abs.B4(10415)},
+		OSID: [][]int{}, FW: [][]int{}, Vendor: [][]int{abs.B4(13)}, Product: "verif-cli"}
 	if configured {
 		set.HostIPAddresses = []datatype.Address{datatype.Address(net.ParseIP("192.0.2.9").To4()), datatype.Address(net.ParseIP("2001:db8::9"))}
 		want.HostIPs = [][]int{addrInts(net.ParseIP("192.0.2.9")), addrInts(net.ParseIP("2001:db8::9"))}
+		set.OriginStateID, set.FirmwareRevision = 77, 5
+		want.OSID, want.FW = [][]int{abs.B4(77)}, [][]int{abs.B4(5)}
 		l.Note = "configured"
 	}
 	l.Want = want
